@@ -1,7 +1,9 @@
 package cl
 
 import (
+	"runtime/debug"
 	"sort"
+	"strings"
 
 	sdk "github.com/cosmos/cosmos-sdk/types"
 
@@ -11,8 +13,22 @@ import (
 	"verif/harness/simcore"
 )
 
+// appPanic turns a panic raised inside the application's query code (not in the harness) into a
+// violation: a query the property relies on must not blow up. Harness panics are re-raised.
+func (w *world) appPanic(prop, op string, ok *bool) {
+	if x := recover(); x != nil {
+		st := string(debug.Stack())
+		if !strings.Contains(st, "/x/concentrated-liquidity") && !strings.Contains(st, "/osmoutils/") {
+			panic(x)
+		}
+		w.run.Fail(prop, "query-panics", op, "a query of the module panicked: %v", x)
+		*ok = false
+	}
+}
+
 // bookkeeping is the C07 oracle: the pool's books agree with its positions.
-func (w *world) bookkeeping(op string) bool {
+func (w *world) bookkeeping(op string) (ok bool) {
+	defer w.appPanic("C07", op, &ok)
 	run, n := w.run, w.n
 	ctx := n.QueryCtx()
 	k := n.App.ConcentratedLiquidityKeeper
@@ -140,7 +156,8 @@ func (w *world) ledgerCheck(q *refPos, claimable sdk.Coins, op string) bool {
 }
 
 // rewardsTier1 holds the tolerance-free C08 oracles and the reward-account coverage part of C01.
-func (w *world) rewardsTier1(op string) bool {
+func (w *world) rewardsTier1(op string) (ok bool) {
+	defer w.appPanic("C08", op, &ok)
 	run, n := w.run, w.n
 	ctx := n.QueryCtx()
 	k := n.App.ConcentratedLiquidityKeeper
